@@ -106,6 +106,7 @@ func (rule *RuleExpression) VisitWorkflowPre(n *Workflow) error {
 
 			for _, i := range e.Inputs {
 				rule.checkString(i.Description, "")
+				rule.checkBool(i.Required, "")
 				// Check default value before setting type to `ity` because referring myself should cause an error.
 				//   inputs:
 				//     recursive:
@@ -151,6 +152,7 @@ func (rule *RuleExpression) VisitWorkflowPre(n *Workflow) error {
 				for id, s := range e.Secrets {
 					sty.Props[id] = StringType{}
 					rule.checkString(s.Description, "")
+					rule.checkBool(s.Required, "")
 				}
 				rule.secretsTy = sty
 			}
@@ -926,7 +928,7 @@ func (rule *RuleExpression) checkMatrix(m *Matrix) *ObjectType {
 
 	for _, combi := range m.Include.Combinations {
 		if combi.Expression != nil {
-			ty := rule.checkOneExpression(m.Include.Expression, "matrix combination at element of include section", "jobs.<job_id>.strategy")
+			ty := rule.checkOneExpression(combi.Expression, "matrix combination at element of include section", "jobs.<job_id>.strategy")
 			if ty == nil {
 				continue
 			}
